@@ -132,7 +132,7 @@ def check(tier, seed):
         CF = mt['UbxCfgCfgAction']['cls']
         for m in [0, 1, 0x1F1F, 0xFFFF, 0xFFFFFFFF, 0x80000000] + [rng.getrandbits(32) for _ in range(20 if tier == 'quick' else 2000)]:
             for name in ('save', 'reset'):
-                fr = CF()
+                fr = CF() if rng.random() < 0.5 else CF.construct(bytearray(bytes(rng.getrandbits(8) for _ in range(12))))
                 cmd, impl = run_helper(fr, name, (m,))
                 cases.append(Case('cfg-helper', cmd, impl, {'helper': name, 'mask': m}, kind='cfg/' + name))
                 want = (0, m, 0) if name == 'save' else (m, 0, m)
@@ -140,17 +140,28 @@ def check(tier, seed):
                     res.violation(f'CFG-CFG {name}: masks not as prescribed', {'property': 'C17', 'input': {'helper': name, 'mask': m}, 'result': impl}, f'c17-cfg|{name}')
         RS = mt['UbxCfgRstAction']['cls']
         for name, want in (('warm', (1, 1)), ('cold', (0xFFFF, 1)), ('start', (0, 9)), ('stop', (0, 8))):
-            fr = RS()
-            cmd, impl = run_helper(fr, name, ())
-            cases.append(Case('rst-helper', cmd, impl, {'helper': name}, kind='rst'))
-            if (fr.f.navBbrMask, fr.f.resetMode) != want:
-                res.violation(f'CFG-RST {name}: (navBbrMask, resetMode) not as prescribed', {'property': 'C17', 'input': {'helper': name}, 'result': impl}, f'c17-rst|{name}')
+            # on a fresh frame, on frames decoded from arbitrary payloads, and after another helper (sequences)
+            for base in ['fresh'] + [bytes(rng.getrandbits(8) for _ in range(4)) for _ in range(6)] + ['after-warm', 'after-cold', 'after-stop']:
+                if base == 'fresh':
+                    fr = RS()
+                elif isinstance(base, bytes):
+                    fr = RS.construct(bytearray(base))
+                else:
+                    fr = RS()
+                    {'after-warm': fr.warm_start, 'after-cold': fr.cold_start, 'after-stop': fr.stop}[base]()
+                cmd, impl = run_helper(fr, name, ())
+                desc = {'helper': name, 'frame': base if isinstance(base, str) else 'decoded ' + base.hex()}
+                cases.append(Case('rst-helper', cmd, impl, desc, kind='rst'))
+                if (fr.f.navBbrMask, fr.f.resetMode) != want:
+                    res.violation(f'CFG-RST {name}: (navBbrMask, resetMode) not as prescribed', {'property': 'C17', 'input': desc, 'result': impl}, f'c17-rst|{name}')
         # ESFLA set / query
         ES = mt['UbxCfgEsflaSet']['cls']
         offs = [-1000, -999, -1, 0, 1, 1000] + [rng.randrange(-1000, 1001) for _ in range(4)]
         for t in (0, 1, 2, -1):
             for x, y, z in [(rng.choice(offs), rng.choice(offs), rng.choice(offs)) for _ in range(10 if tier == 'quick' else 300)] + [(1001, 0, 0), (0, -1001, 0), (0, 0, 5000)]:
                 fr = ES()
+                if rng.random() < 0.5:
+                    fr.set(rng.randrange(2), rng.randrange(-1000, 1001), rng.randrange(-1000, 1001), rng.randrange(-1000, 1001))
                 cmd, impl = run_helper(fr, 'esfla', (t, x, y, z))
                 ok_dom = 0 <= t <= 1 and all(-1000 <= v <= 1000 for v in (x, y, z))
                 cases.append(Case('esfla-set', cmd, impl, {'helper': 'esfla.set', 'args': [t, x, y, z]}, domain=ok_dom, kind='esfla/set'))
@@ -173,7 +184,7 @@ def check(tier, seed):
         UT = mt['UbxMgaIniTimeUtc']['cls']
         for dt in [(2000, 2, 29, 0, 0, 0), (2099, 12, 31, 23, 59, 59), (1, 1, 1, 0, 0, 0), (9999, 12, 31, 23, 59, 59), (2024, 6, 15, 12, 30, 45)] + \
                 [(rng.randrange(1980, 2100), rng.randrange(1, 13), rng.randrange(1, 29), rng.randrange(24), rng.randrange(60), rng.randrange(60)) for _ in range(20 if tier == 'quick' else 1000)]:
-            fr = UT()
+            fr = UT() if rng.random() < 0.5 else UT.construct(bytearray(bytes(rng.getrandbits(8) for _ in range(24))))
             cmd, impl = run_helper(fr, 'datetime', dt)
             cases.append(Case('utc-helper', cmd, impl, {'helper': 'set_datetime', 'datetime': list(dt)}, kind='utc'))
             got = (fr.f.type, fr.f.version, fr.f.ref, fr.f.leapSecs, fr.f.year, fr.f.month, fr.f.day, fr.f.hour, fr.f.minute, fr.f.second, fr.f.ns, fr.f.tAccS, fr.f.tAccNs)
